@@ -19,7 +19,9 @@ C == Cases[tid]
 Exp == IF C.kind = "chunk"
        THEN LET d == Dechunk(C.bytes, 1)
             IN [Incomplete EXCEPT !.complete = d.ok /\ ~d.bad, !.bad = d.bad, !.body = d.body, !.end = d.next - 1]
-       ELSE ParseMsg(C.bytes)
+       ELSE IF C.skip = 0 THEN ParseMsg(C.bytes)
+       \* a PROXY protocol v1 line (C.skip bytes, --enable-proxy-protocol) precedes the message: the message is what follows it
+       ELSE LET m == ParseMsg(Sub(C.bytes, C.skip + 1, Len(C.bytes))) IN [m EXCEPT !.end = @ + C.skip]
 
 \* C03 proper: the view after any segmentation equals the view after ONE piece (views[1] is recorded from the
 \* one-piece feed), and the one-piece view is complete with exactly the bytes after the message as remainder.
